@@ -1247,6 +1247,22 @@ class _Mangler(NodeTransformer):
         return node
 
 
+def _requalify(code, old, new):
+    """Replace the prefix ``old`` of the qualified names in ``code``."""
+    qualname = code.co_qualname
+    if qualname == old or qualname.startswith(old + "."):
+        qualname = new + qualname[len(old) :]
+    consts = []
+    for ct in code.co_consts:
+        if isinstance(ct, types.CodeType):
+            ct = _requalify(ct, old, new)
+        elif ct == code.co_qualname and isinstance(ct, str):
+            # The body of a class stores its qualified name
+            ct = qualname
+        consts.append(ct)
+    return code.replace(co_qualname=qualname, co_consts=tuple(consts))
+
+
 def _compile(filename, tree, freevars):
     if freevars:
         if sys.version_info >= (3, 8, 0):  # pragma: no cover
@@ -1514,6 +1530,14 @@ def transform(fn, proceed, to_instrument=True, set_conformer=True):
         actual_fn = scratch[fname]
 
     actual_fn.__qualname__ = fn.__qualname__
+    if hasattr(actual_fn.__code__, "co_qualname"):
+        # The functions and classes defined inside fn get their qualified
+        # names from its code: they are those of fn, not of the helper.
+        actual_fn.__code__ = _requalify(
+            actual_fn.__code__,
+            actual_fn.__code__.co_qualname,
+            fn.__qualname__,
+        )
     actual_fn.__defaults__ = fn.__defaults__
     actual_fn.__kwdefaults__ = fn.__kwdefaults__
     actual_fn.__annotations__ = dict(fn.__annotations__)
